@@ -18,9 +18,12 @@ fn run_case(fam: &str, args: &[i128]) -> Vec<i128> {
         "csm" => csm::run(args),
         "causal" => causal::run(args, 1),
         "causalrm" => causal::run_rm(args, 1, true),
+        "causalconc" => causal::run_conc(args),
         f if f.starts_with("causal_") => causal::run(args, f[7..].parse().unwrap()),
         "collections" => collections::run(args),
         "context" => context::run(args),
+        "contextbig" => context::run_big(args),
+        f if f.starts_with("ugraphbig_") => ugraph::run_big(args, f[10..].parse().unwrap()),
         f if f.starts_with("ugraph_") => ugraph::run(args, f[7..].parse().unwrap()),
         f if f.starts_with("spath_") => ugraph::run_spath(args, f[6..].parse().unwrap()),
         _ => panic!("unknown family {fam}"),
